@@ -265,6 +265,34 @@ def _check_sample(case, h, idx, matching, init):
             if d >= 1 and deg.get(n, 0) == 0:
                 raise Violation("C16/conditioning/node-vanished", {"node": short(n), "conditioned": d, **ctx})
     total = sum(csize.values())
+    if degrees_binding and len(edges) < total and total - len(edges) <= 4:
+        # a hyperedge is missing only because it coincided with an identical one that IS in the sample: the degree
+        # deficits must be the sum of the indicator vectors of (total - len) hyperedges of the sample, size by size
+        need = {s: csize.get(s, 0) - size.get(s, 0) for s in csize if csize.get(s, 0) > size.get(s, 0)}
+        deficit = {n: cdeg.get(n, 0) - deg.get(n, 0) for n in set(cdeg) | set(deg) if cdeg.get(n, 0) != deg.get(n, 0)}
+        cands = [e for e in edges if need.get(len(e), 0) > 0]
+
+        def solve(need, deficit, start):
+            if not any(need.values()):
+                return not deficit
+            for idx in range(start, len(cands)):
+                e = cands[idx]
+                if need.get(len(e), 0) > 0 and all(deficit.get(n, 0) > 0 for n in e):
+                    d2 = dict(deficit)
+                    for n in e:
+                        d2[n] -= 1
+                        if d2[n] == 0:
+                            del d2[n]
+                    n2 = dict(need)
+                    n2[len(e)] -= 1
+                    if solve(n2, d2, idx):
+                        return True
+            return False
+
+        if any(v < 0 for v in deficit.values()) or not solve(need, deficit, 0):
+            raise Violation("C16/conditioning/missing-hyperedges-not-explained-by-coincidences", {
+                "missing_per_size": need, "degree_deficits": short({str(k): v for k, v in deficit.items()}),
+                "matching_sequences": matching, **ctx})
     full = len(edges) == total
     if full and degrees_binding:
         if {n: d for n, d in deg.items() if d} != {n: d for n, d in cdeg.items() if d} or dict(size) != {s: c for s, c in csize.items() if c}:
